@@ -281,6 +281,53 @@ var _ = deriveKeys(1) + deriveSort(1) + deriveEqual_(1) + deriveCompare_(1) + de
 			return items, nil
 		})
 	}
+	// calls that only type in a later pass and carry the BARE plugin prefix as their name, next to named
+	// calls whose transitive helpers are minted before that (the helper must not take the bare name, and
+	// the late call must be registered for its own argument types)
+	mk("late-bare-names", func(u *pgen.Universe, s *pgen.Std) ([]pgen.PItem, map[string]string) {
+		late := `package p
+
+type LInner struct {
+	Name string
+	Tags []string
+}
+
+type LOuter struct {
+	ID int
+	In *LInner
+	M  map[string]*LInner
+}
+
+func lateEq(a, b *LOuter) bool { return deriveEqualLOuter(a, b) }
+
+func lateEqK(m1, m2 map[string]int) bool {
+	return deriveEqual(deriveSort(deriveKeys(m1)), deriveSort(deriveKeys(m2)))
+}
+
+func lateCmp(a, b *LOuter) int { return deriveCompareLOuter(a, b) }
+
+func lateCmpK(m1, m2 map[string]int) int {
+	return deriveCompare(deriveSort(deriveKeys(m1)), deriveSort(deriveKeys(m2)))
+}
+
+func lateHash(a *LOuter) uint64 { return deriveHashLOuter(a) }
+
+func lateHashK(m map[string]int) uint64 { return deriveHash(deriveSort(deriveKeys(m))) }
+
+func lateClone(a *LOuter) *LOuter { return deriveCloneLOuter(a) }
+
+func lateCloneK(m map[string]int) []string { return deriveClone(deriveSort(deriveKeys(m))) }
+
+func lateGoString(a *LOuter) string { return deriveGoStringLOuter(a) }
+
+func lateGoStringK(m map[string]int) string { return deriveGoString(deriveSort(deriveKeys(m))) }
+
+func lateUnique(l []*LInner) []*LInner { return deriveUniqueL(l) }
+
+func lateContains(m map[string]int, k string) bool { return deriveContains(deriveKeys(m), k) }
+`
+		return []pgen.PItem{{TItem: pgen.TItem{T: pgen.Ptr(s.SV), Ops: []string{"gostring"}}}}, map[string]string{"p/late.go": late}
+	})
 	// user types named like the parameters and variables generated code introduces: inside a generated
 	// body such a name no longer denotes the type
 	for _, nm := range hostileTypeNames {
